@@ -93,7 +93,7 @@ func TestVerifC06_ProcHeaderTailReload(t *testing.T) {
 				case i%4 == 1:
 					// non-ASCII and wider than the window: what is drawn is a truncated rendition
 					out[i] += " " + strings.Repeat(fmt.Sprintf("élément%02d-", i%100), 9)
-				case i%4 == 2 && read0:
+				case i%4 == 2 && read0 && i >= 3: // (records that may become header lines stay single-line: how a multi-line header record is drawn is not specified)
 					out[i] += "\nsecond line of the record é\n\tthird"
 				}
 			}
@@ -165,7 +165,41 @@ func TestVerifC06_ProcHeaderTailReload(t *testing.T) {
 				t.Fatalf("%s: the searchable items are not records %d.. of the loaded input with ordinals counting from the first non-header record (%d expected): %s\nstate: %s\nhistory:\n  %s", step, nh+first, len(want), firstBad, describe(st), strings.Join(history, "\n  "))
 			}
 		}
+		// the records diverted by --header-lines are shown as the header (all of them, also when the
+		// input has fewer records than N)
+		headerShown := func(cur []string, step string) {
+			k := minInt(nh, len(cur))
+			var missing string
+			for attempt := 0; attempt < 60; attempt++ {
+				missing = ""
+				rows := s.Capture()
+				for _, rec := range cur[:k] {
+					first := []rune(strings.SplitN(rec, "\n", 2)[0])
+					if len(first) > 12 {
+						first = first[:12]
+					}
+					found := false
+					for _, row := range rows {
+						if strings.HasPrefix(strings.TrimSpace(row), string(first)) {
+							found = true
+						}
+					}
+					if !found {
+						missing = rec
+					}
+				}
+				if missing == "" {
+					return
+				}
+				time.Sleep(50 * time.Millisecond)
+			}
+			if len([]rune(missing)) > 40 {
+				missing = string([]rune(missing)[:40]) + "..."
+			}
+			t.Fatalf("%s: header record %q (one of the first %d records, --header-lines=%d) is not shown on the screen\nscreen:\n%s\nhistory:\n  %s", step, missing, k, nh, strings.Join(s.Capture(), "\n"), strings.Join(history, "\n  "))
+		}
 		expect(inputs[0], "start")
+		headerShown(inputs[0], "start")
 		time.Sleep(120 * time.Millisecond)
 		expect(inputs[0], "start, after the list has been drawn")
 		steps := rapid.IntRange(1, 5).Draw(t, "steps")
@@ -178,6 +212,7 @@ func TestVerifC06_ProcHeaderTailReload(t *testing.T) {
 				t.Fatalf("POST %s answered %d %v", body, code, err)
 			}
 			expect(inputs[k], "after "+body)
+			headerShown(inputs[k], "after "+body)
 			// ... and still after the list has been drawn
 			if rapid.Bool().Draw(t, "lookAgain") {
 				s.Post(rapid.SampledFrom([]string{"down", "page-up", "last", "toggle-wrap"}).Draw(t, "redraw"))
